@@ -19,4 +19,5 @@ rc=0
 for c in "$@"; do
   ./check "$c" --tier "${TIER:-quick}" 2>&1 | grep -v WARNING | cut -c1-400 | grep -E "VIOLATION|KNOWN|HARNESS|oracle=|cases," 
 done
+if [ -n "${KEEP:-}" ]; then mkdir -p "$KEEP"; cp "$D"/out/replays/*.json "$KEEP"/ 2>/dev/null; fi
 rm -rf "$D"
